@@ -4,7 +4,7 @@ Flow-insensitive over definitions (every reaching definition of a local is consi
 comparisons that dominate the site through exactly one switch edge (`if x < c`, `match x { a..=b => .. }`,
 `match slice.len() { 6 => .. }`).  It only ever answers "provably cannot fire" or "don't know"; a site it
 cannot prove goes to the reviewed table as before."""
-import re
+import re, json
 from .facts import callee
 from . import lib
 
@@ -319,7 +319,7 @@ class Prover:
                 if last == 'len' and not proj:
                     n = _array_len(t['args'][0]['place'].get('ty')) if t['args'] and t['args'][0].get('k') in ('copy', 'move') else None
                     r = (n, n) if n is not None else (0, SLICE_MAX)
-                    if n is None and depth < 3 and t['args'] and p.startswith('core::slice::'):
+                    if n is None and depth < 9 and t['args'] and p.startswith('core::slice::'):
                         # the slice is a view of a fixed-size array (`&arr as &[u8]`), a chunk or one half of a split
                         r = self.len_range(t['args'][0], blk) or r
                 elif last in ('position', 'rposition') and proj and isinstance(proj[-1], dict) and proj[-1].get('n') == '0':
@@ -345,11 +345,63 @@ class Prover:
             rs.append(r)
         return (min(r[0] for r in rs), max(r[1] for r in rs))
 
+    def _param_chunk_len(self, l):
+        """parameter `l` (the only one) of a private function that is used nowhere but as the per-element function of
+        `x.chunks_exact(n).map / filter_map / for_each(..)`: every value it ever receives is a chunk of n elements"""
+        body = self.body
+        facts = lib._TL.facts
+        if facts is None or body.arg_count != 1 or l != 1 or body.kind not in ('fn', 'method'):
+            return None
+        fn = facts.fns.get(body.path) if hasattr(facts, 'fns') else None
+        if fn is not None and (fn.get('vis') or {}).get('nominal', '') == 'pub':
+            return None
+        rng = None
+
+        def fn_values(x):
+            """operands that are this function as a value"""
+            n = 0
+            if isinstance(x, dict):
+                if x.get('k') == 'const' and isinstance(x.get('fn'), dict) and x['fn'].get('path') == body.path:
+                    n += 1
+                for v in x.values():
+                    n += fn_values(v)
+            elif isinstance(x, list):
+                for v in x:
+                    n += fn_values(v)
+            return n
+        for b in facts.body_list:
+            if b.kind == 'stolen':
+                continue
+            for bi, blk in enumerate(b.blocks):
+                if fn_values(blk['stmts']):
+                    return None              # the function escapes as a value some other way
+                t = blk['term']
+                if t.get('k') != 'call':
+                    if fn_values(t):
+                        return None
+                    continue
+                c = callee(t)
+                cp = (c.get('resolved') or c['path']) if c else ''
+                if cp == body.path:
+                    return None              # called directly with an arbitrary slice
+                hits = [i for i, a in enumerate(t['args']) if fn_values(a)]
+                if not hits:
+                    continue
+                if hits != [1] or cp.split('::')[-1] not in ('map', 'filter_map', 'for_each', 'all', 'any', 'find_map', 'flat_map'):
+                    return None
+                r = Prover(b)._chunk_len(t['args'][0])
+                if r is None:
+                    return None
+                rng = r if rng is None else (min(rng[0], r[0]), max(rng[1], r[1]))
+        return rng
+
     def _chunk_len(self, op, depth=0):
         """length interval of an element drawn from `x.chunks_exact(n)` (every such chunk has exactly n elements)"""
         if depth > 8 or op.get('k') not in ('copy', 'move'):
             return None
         pl = op['place']
+        if pl['p'] in ([], ['*']) and 1 <= pl['l'] <= self.body.arg_count and depth < 8:
+            return self._param_chunk_len(pl['l'])
         ds = _defs(self.body, pl['l'])
         if len(ds) != 1:
             return None
